@@ -9,9 +9,16 @@
    panicked / died / hung where the model terminates normally; 5 accept/reject
    differs on a legal input; 6 viewBox transform differs. *)
 From Verif Require Export Base.F32 Base.GoSem Geom.Matrix Geom.SvgPath Geom.Shapes Geom.UseGraph.
-From Coq Require Import QArith List NArith ZArith Bool.
+From Coq Require Import QArith List NArith ZArith Bool String Ascii.
 Import ListNotations.
 Open Scope Q_scope.
+
+(* byte strings are written as Coq string literals in the case files *)
+Fixpoint bs (s : string) : list N :=
+  match s with
+  | EmptyString => []
+  | String a r => N_of_ascii a :: bs r
+  end.
 
 (* implementation side: one pathItem / one backend call.
    kind 0 MoveTo, 1 LineTo, 2 CubicTo, 3 ClosePath, 4 Rectangle *)
@@ -150,6 +157,7 @@ Definition check_viewbox (p : par) (w h vx vy vw vh o1 o2 o3 o4 : Q) : N :=
 Definition pat_of (m : shape_op) : pat :=
   match m with
   | SRect x y w h => PRect x y w h
+  | SOp true (OClose x y) => PLoose (OClose x y)   (* ClosePath() has no arguments *)
   | SOp true o => PExact o
   | SOp false o => PLoose o
   end.
